@@ -24,6 +24,8 @@ type Ctx struct {
 
 	evReach map[*ssa.Function]bool
 	gScope  map[*ssa.Function]bool
+
+	startReach map[*ssa.Function]bool
 }
 
 // Registry maps property ids to their rule sets.
